@@ -66,7 +66,8 @@ def finish(rec, keep, src, pid, tmp, wt):
         dst = os.path.join("/verif/seeded", keep)
         os.makedirs(dst, exist_ok=True)
         for f in ("patch.diff", "demo.py"):
-            shutil.copy(os.path.join(src, f), os.path.join(dst, f))
+            if os.path.abspath(os.path.join(src, f)) != os.path.abspath(os.path.join(dst, f)):
+                shutil.copy(os.path.join(src, f), os.path.join(dst, f))
         try:
             meta = json.load(open(os.path.join(src, "meta.json")))
         except Exception:
